@@ -512,11 +512,24 @@ func (e *Exec) knownGlobal(name string, et types.Type) (Value, bool) {
 }
 
 func (e *Exec) opaqueObjMethod(o *OpaqueObj, name string, args []Value) (Value, bool) {
+	if ad, ok := o.Data.(*btcAddr); ok {
+		return e.opaqueMethod(OpaqueV{Kind: "btcaddr", Data: ad}, name, args)
+	}
 	return nil, false
 }
 
 func (e *Exec) opaqueMethod(o OpaqueV, name string, args []Value) (Value, bool) {
 	switch o.Kind {
+	case "btcaddr":
+		ad := o.Data.(*btcAddr)
+		switch name {
+		case "IsForNet":
+			return BoolC(ad.forNet), true
+		case "EncodeAddress", "String":
+			return StrV{S: "<btc address>"}, true
+		case "ScriptAddress":
+			return mkByteSlice(ad.prog), true
+		}
 	case "eventmanager", "logger":
 		switch name {
 		case "With":
